@@ -1811,8 +1811,9 @@ PROPS["C04"]["rule"] += (" Op rtw (same model and specification as rtm, fixed ca
     "tuple / struct / the three non-unit kinds in rotation) side by side in a Vec, in a BTreeMap<u16, _>, or spread over "
     "struct Doc { first: Vec<_>, second: (Vec<_>, Vec<_>), last: _ }: nesting at most 5, so reading one value back may not depend on how "
     "many siblings were read before it (a recursion budget that is not given back shows near 127 siblings).")
-PROPS["C14"]["rule"] += (" Op ttd also carries WIDE documents (100 ... 300 newtype / tuple / struct enum variants, one-field structs or "
-    "one-element arrays side by side in one array and in one object; counted nesting 2 or 3): the verdict 'accepted iff at most 127 "
+PROPS["C14"]["rule"] += (" Op ttd also carries WIDE documents (100 ... 300 siblings of each of the ten layer kinds - newtype / tuple / struct enum "
+    "variants, one-field structs as object and as array, one-element arrays, tuples and maps - side by side in one array and in one "
+    "object; counted nesting 2 or 3): the verdict 'accepted iff at most 127 "
     "counted containers are open at the deepest point' requires that the budget a container takes is restored when it closes.")
 PROPS["C05"]["rule"] += (" Op rsa (harness/src/readers.rs, handler in Drv/Readers.lean): the literals of op rs requested through the "
     "SELF-DESCRIBING route - Deserializer::deserialize_any with a custom Visitor reporting visit_borrowed_str (B<offset>: the pointer "
